@@ -247,9 +247,13 @@ def avoid_edges(layout, bs):
     return out
 
 
-def sim_cur(layout, bs, streamed, lag):
+def sim_cur(layout, bs, streamed, lag, ta=None, tb=None):
     """python transliteration of Model/Retain.v for the CURRENT policy and the schedule sched_lag lag
-    (lag = 1: the consumer keeps up).  Returns (blocks high, lines high, syslines high, drop errors).
+    (lag = 1: the consumer keeps up), and of the linear-search driver of Model/RetainSearch.v (sw_run):
+    ta = index of the first message of the window (-a), tb = index of the last one (-b); the messages
+    before ta are found and stored but neither sent nor dropped (stage 2 is one linear search), the
+    first message after tb is found, not sent, and the driver stops.
+    Returns (blocks high, lines high, syslines high, drop errors).
     Used for large files where vm_compute would be slow; cross-checked against the Coq model on every
     B case of every run."""
     msgs = messages(layout)
@@ -261,6 +265,7 @@ def sim_cur(layout, bs, streamed, lag):
     hb = hl = hs = 0
     nread = 0
     derr = 0
+    w = ta or 0
 
     def read_line(i):
         nonlocal hb, hl, nread
@@ -284,13 +289,15 @@ def sim_cur(layout, bs, streamed, lag):
         stored.append(k)
         if len(stored) > hs:
             hs = len(stored)
-        if k == 0 or k == n - 1 or k < 2:
-            continue
+        if tb is not None and k > tb:
+            break              # found, not sent: the driver stops
+        if k <= w + 1 or k == n - 1:
+            continue           # linear search / the first two messages of stage 3 / the last message: no drop
         f = spans[msgs[k - 1][0]][0]
         if f < 3:
             continue
         bo = f - 2
-        low = k - lag + 1            # held = {low .. k}
+        low = max(w, k - lag + 1)            # held = {low .. k}
         j = 0
         while j < len(stored) and spans[msgs[stored[j]][1]][1] <= bo:
             m = stored[j]
@@ -546,11 +553,12 @@ class WindowSim:
                     for b in range(self.blk(self.beg[i]), self.blk(self.end[i])):
                         self.blocks.discard(b)
 
-    def run(self, t):
+    def run(self, t, tb=None):
+        """t = index of the first message of the window (-a; None: no -a), tb = index of the last one (-b)"""
         self.blockzero()
         w = self.bsearch(0, t)
         self.search_marks = (self.hb, self.hl, self.hs)
-        if w is None:
+        if w is None or (tb is not None and w > tb):
             return self
         self.sent = [w]
         if self.mend(w) == self.filesz - 1:
@@ -559,8 +567,8 @@ class WindowSim:
         prev = None
         while True:
             q = self.bsearch(fo1, t)
-            if q is None:
-                break
+            if q is None or (tb is not None and q > tb):
+                break              # after B: found, not sent, the driver stops
             self.sent.append(q)
             fo1 = self.mend(q) + 1
             if self.mend(q) == self.filesz - 1:
@@ -575,5 +583,12 @@ class WindowSim:
         return (self.hb, self.hl, self.hs, self.derr, self.dlerr)
 
 
-def sim_cur_w(layout, bs, lag, t):
-    return WindowSim(layout, bs, lag).run(t).result()
+def sim_cur_w(layout, bs, lag, t, tb=None):
+    return WindowSim(layout, bs, lag).run(t, tb).result()
+
+
+def window_end_of(layout, frac):
+    """(index of the last message of a window that ends at frac of the file size, its ISO stamp)"""
+    t, _ = window_of(layout, frac)
+    t = max(t - 1, 0)
+    return t, stamp("iso", t).decode()
